@@ -577,6 +577,7 @@ CHECKS["C20"] = dict(
     assumptions=["a connection closed without service while the model is below the limit may or may not be a limit rejection (the proxy notices client closes asynchronously; a backend connect can time out on a busy machine), hence the two-sided bound",
                  "the Redis processor keeps no upstream connection counters; only its request counters are checked upstream"],
     parts=[
-        dict(name="stats", test="TestStats", kind="rapid", checks={"quick": 80, "thorough": 5000}, shards=16, timeout={"quick": 900, "thorough": 3400}, shrinktime="60s", gomaxprocs=4, crash_is_violation=True),
+        dict(name="stats", test="TestStats", kind="rapid", checks={"quick": 300, "thorough": 5000}, shards=16, timeout={"quick": 900, "thorough": 3400}, shrinktime="60s", gomaxprocs=4, crash_is_violation=True),
+        dict(name="churn", test="TestChurn", kind="rapid", checks={"quick": 60, "thorough": 1500}, shards=16, timeout={"quick": 900, "thorough": 3400}, shrinktime="15s", crash_is_violation=False),
     ],
 )
